@@ -314,6 +314,7 @@ func credList(r *mrand.Rand, thorough bool) []cred {
 
 func credCases(r *mrand.Rand, thorough bool) {
 	hsChoices := []*[2]int16{{0, 1}, {0, 0}}
+	auChoices := []*[2]int16{{0, 0}, {0, 1}, nil, {0, 2}}
 	i := 0
 	for _, cr := range credList(r, thorough) {
 		// PLAIN token layout against the RFC 4616 spec (oracle side)
@@ -328,8 +329,8 @@ func credCases(r *mrand.Rand, thorough bool) {
 				path := []string{"dialer", "transport"}[i%2]
 				hs := hsChoices[(i/2)%2]
 				bad := []string{"code", "challenge"}[(i/4)%2]
-				c := caseSpec{path: path, hs: hs, mech: m, user: cr.user, pass: cr.pass, srvUser: cr.srvUser, srvPass: cr.srvPass,
-					mechFail: -1, badCreds: bad, refSrv: ref}
+				c := caseSpec{path: path, hs: hs, au: auChoices[(i/8)%4], mech: m, user: cr.user, pass: cr.pass, srvUser: cr.srvUser, srvPass: cr.srvPass,
+					mechFail: -1, badCreds: bad, refSrv: ref, wrongCreds: !cr.right}
 				if m == "plain" && (strings.ContainsRune(cr.user, 0) || strings.ContainsRune(cr.pass, 0)) {
 					continue
 				}
@@ -338,6 +339,9 @@ func credCases(r *mrand.Rand, thorough bool) {
 					if cr.right {
 						c.srvUser, c.srvPass = cr.user, cr.pass
 					}
+				} else if cr.right && (cr.user != cr.srvUser || cr.pass != cr.srvPass) {
+					// right only after SASLprep: the strings differ, so no unconditional expectation from string equality
+					c.wrongCreds = false
 				}
 				res, skip := runCase(c)
 				if skip != "" {
